@@ -159,11 +159,14 @@ def run(ctx):
             rr = render.render(nodes, s, r)
             text = rr.text
             case = {"part": "positions", "text": text[:6000], "surface": s.describe()}
+            with_comments = (j % 2 == 1)
             try:
-                d = eng.loads(text, include_position=True)
+                d = eng.loads(text, include_position=True, include_comments=with_comments)
             except Exception as ex:
                 res.count("rendering_not_accepted")
                 continue
+            res.count("positions_with_comments_kept" if with_comments else "positions_plain")
+            case["include_comments"] = with_comments
             res.count("documents_checked")
             res.seen("documents", h(text))
             for g in rr.gaps:
@@ -188,6 +191,14 @@ def run(ctx):
             res.count("fault_case_unusable")
             continue
         case = {"part": "error-locations", "text": run_.text[:5000], "faults": [(f["kind"], f["object"].type, f["key"]) for f in run_.faults]}
+        if j % 3 == 0 and s is not render.CANONICAL:
+            # the same document loaded with comments kept as well (what `mappyfile format --comments` does)
+            try:
+                run_.d = eng.loads(run_.text, include_position=True, include_comments=True)
+                run_.root = run_.d[0] if isinstance(run_.d, list) else run_.d
+                case["include_comments"] = True
+            except Exception:
+                pass
         try:
             msgs = valcheck.validate(eng, run_, public=(j % 50 == 0))
         except Exception as ex:
